@@ -64,6 +64,7 @@ type Binding struct {
 type Instance struct {
 	Ord       int
 	Creator   int // id of the task that made the instance
+	CloExec   bool // created with IN_CLOEXEC
 	FD        int
 	KeepFD    int // duplicate (>= 1000) that keeps the kernel object alive so that the library's close is fast; released asynchronously
 	Queue     []Record
@@ -492,7 +493,7 @@ func InotifyInit1(flags int) (int, error) {
 		keep = -1
 	}
 	fl, _ := unix.FcntlInt(uintptr(fd), unix.F_GETFL, 0)
-	in := &Instance{Ord: len(s.Inst), Creator: ssim.Cur().ID, FD: fd, KeepFD: keep, Pollable: fl&unix.O_NONBLOCK != 0, Limit: s.Cfg.QueueLimit,
+	in := &Instance{Ord: len(s.Inst), Creator: ssim.Cur().ID, CloExec: flags&unix.IN_CLOEXEC != 0, FD: fd, KeepFD: keep, Pollable: fl&unix.O_NONBLOCK != 0, Limit: s.Cfg.QueueLimit,
 		Coalesce: s.Cfg.Coalesce, BatchHist: make([]int, 64)}
 	in.Calls = append(in.Calls, Call{Step: step, Task: ssim.Cur().ID, Kind: "init", Wd: fd})
 	s.Inst = append(s.Inst, in)
